@@ -325,3 +325,12 @@ NOT_APPLICABLE = {
            "(Rng::gen_range), and the table is a std HashMap behind a Mutex. What IS decided elsewhere: errno derivation per error kind (lemma harnesses error_kind_equiv_*, C10), "
            "and that only ids <= -4096 cross the C boundary on errors (C11/C17 with store_error as a contract stub).",
 }
+
+# quick tier = one parallel wave per property (<= 12 harnesses); everything else runs in the thorough tier
+QUICK_SETS = {
+    "C03": ["O14.0", "O14.1.base", "O14.5.base", "O14.6.base", "O14.7.base", "O13.2a", "O13.1a", "O13.1b", "O12.2a"],
+    "C05": ["O5.1a", "O5.1b", "O5.1c", "O5.1d", "O5.2a", "O5.2b", "O5.2c", "O14.5.base", "O13.1f"],
+    "C10": ["O10.4", "O10.5", "O10.3", "O10.1a", "O10.1b", "O10.1c", "O6.1", "O14.6.base", "O12.2c", "O13.1b", "OE.rawos_d0", "OE.os_d0"],
+    "C11": ["O11.c1", "O11.c4", "O14.5.base", "O14.5.nobase", "O14.6.base", "O6.3", "O6.4c", "O12.2d"],
+    "C14": ["O14.0", "O14.1.base", "O14.2.base", "O14.3.base", "O14.4.base", "O14.5.base", "O14.6.base", "O14.6.nobase", "O14.7.base", "O14.8", "OE.inval_d0", "OE.rawos_d0"],
+}
